@@ -82,31 +82,7 @@ def fd_dudv(c, u, v, h=1e-4):
     return (f(u + h, v + h) - f(u + h, v - h) - f(u - h, v + h) + f(u - h, v - h)) / (4 * h * h)
 
 
-def int_theta_replay(fam, meth):
-    def replay(env):
-        import warnings
-        import numpy as np
-        warnings.simplefilter('ignore')
-        import copulas.bivariate as cb
-        cls = getattr(cb, biv.FAMILIES[fam]['native'])
-        bad = []
-        X = np.array([[0.3, 0.6], [0.9999, 0.9999], [0.05, 0.5]])
-        for th in (1, 2, 3, 5):
-            if fam == 'gumbel' and th < 1:
-                continue
-            try:
-                a, b = cls(), cls()
-                a.theta, b.theta = th, float(th)
-                a.tau = b.tau = 0.3
-                ra, rb = getattr(a, meth)(X), getattr(b, meth)(X)
-                if not np.allclose(ra, rb, rtol=1e-12, equal_nan=True):
-                    bad.append('%s.%s with theta=%d (int) gives %r, with theta=%.1f gives %r' %
-                               (fam, meth, th, np.round(ra, 6).tolist(), th, np.round(rb, 6).tolist()))
-                    break
-            except Exception as e:      # noqa
-                bad.append('%s: %s' % (type(e).__name__, str(e)[:80]))
-        return {'confirmed': bool(bad), 'detail': bad[0] if bad else 'integer and float theta agree natively'}
-    return replay
+int_theta_replay = biv.int_theta_replay
 
 
 def build(chk):
@@ -125,29 +101,7 @@ def build(chk):
         # ---- a theta stored as an INTEGER (assigned by the user, or read back from a JSON file) gives the same functions ----
         for tagi, meth, resR in (('cdf', 'cumulative_distribution', resC), ('h', 'partial_derivative', resH),
                                  ('pdf', 'probability_density', resD)):
-            _, resI, _ = biv.run_method(fam, meth, open_at_one=True, theta_term=biv.THI, safety=False)
-            sub = {biv.TH: biv.THI}
-            n_int = 0
-            for a, ri in enumerate(resI):
-                if ri.outcome == 'unsupported':
-                    chk.undecided.append(('C07.%s.%s.int_theta.exec' % (fam, tagi), 'executor', str(ri.value)))
-                    continue
-                for b, rr in enumerate(resR):
-                    if rr.outcome != ri.outcome or rr.outcome != 'return':
-                        continue
-                    pcr = [ir.substitute(p_, sub) for p_ in rr.pc]
-                    hy = list(ri.pc) + [p_ for p_ in pcr if p_ not in ri.pc]
-                    sat, _m = smt.satisfiable(hy, timeout_ms=3000)
-                    if sat is False:
-                        continue
-                    n_int += 1
-                    chk.add(Ob('C07.%s.%s.int_theta_same_as_float.%d_%d' % (fam, tagi, a, b), hy,
-                               ir.eq(biv.lane_term(ri.value), ir.substitute(biv.lane_term(rr.value), sub)),
-                               function=F['cls'] + '.' + meth, free_ufs_ok=True, replay=int_theta_replay(fam, meth),
-                               clause='%s with an integer-typed theta (int, numpy integer, a theta read from JSON) is the same '
-                                      'function as with the equal float theta' % meth))
-            if n_int == 0 and not chk.undecided:
-                chk.engine_error('C07.%s.%s.int_theta: nothing compared' % (fam, tagi))
+            biv.int_theta_obs(chk, 'C07', fam, meth, tagi, resR, open_at_one=True)
         for tag, res in (('cdf', resC), ('h', resH), ('pdf', resD), ('logpdf', resL)):
             bad = [r for r in res if r.outcome in ('unsupported',)]
             for r in bad:
